@@ -24,6 +24,9 @@ struct SockClientThread : public Thread
 		ASL_VERIF_POINT(ASL_VP_SRV_CLIENT_DONE_PRE, _server);
 		--_server->_numClients;
 		ASL_VERIF_POINT(ASL_VP_SRV_CLIENT_DONE_POST, 0);
+	}
+	void finish()
+	{
 		delete this;
 	}
 };
